@@ -258,7 +258,7 @@ pub fn run(ctx: &mut Ctx) {
         "'a lower data rate exists' = a lower uplink data rate RP002 defines and the crate implements for the region".into(),
         "the two readings of 'do uplinks count while ADR is disabled' are both admissible; steps where the model holds more than one state are counted in classes.ambiguous-steps".into(),
     ];
-    let cases = ctx.tier.pick(10_000u32, 120_000);
+    let cases = ctx.tier.pick(20_000u32, 120_000);
     let seed = ctx.seed;
     let nthreads = ctx.threads as u32;
     ctx.parallel(|ti, _n, st| {
